@@ -53,7 +53,7 @@ struct Model {
 const PROBES: [&str; 10] = [
     // CONT first: a failing direct statement drops a pending continuation
     "CONT",
-    "PRINT A;A%;A#;A$;B(2);S;X;I;W;Q(1);D;K",
+    "PRINT B(7);Q(7);A;A%;A#;A$;B(2);S;X;I;W;Q(1);D;K",
     "DIM A(3):A(3)=1:DIM B(9),Q(9)",
     "RETURN",
     "NEXT",
@@ -84,6 +84,10 @@ fn model(depth: usize, only_prog: Option<usize>) -> Model {
         "GOSUB 40", "GOSUB 200", "K=3:W=9", "X%=30000", "PRINT \"col\";", "CLEAR", "CONT",
         // direct lines that fail to compile / to link, and edits of the listing
         "PRINT )", "GOTO 500", "5 REM", "20",
+        // refused (ILLEGAL DIRECT): must leave nothing in the program's DATA
+        "DATA 99",
+        // the array touched last before a reset, with other bounds than the program's
+        "DIM B(20):B(20)=3", "Q(7)=1",
     ] {
         acts.push((l.to_string(), Act::Line(l)));
     }
@@ -269,7 +273,7 @@ impl Check for C12 {
     fn meta(&self, tier: Tier) -> Meta {
         Meta {
             bound: format!(
-                "12 programs (variables, arrays, DEFtype, DEF FN, DATA/RESTORE, FOR/GOSUB/WHILE, INPUT, STOP inside loops and subroutines, runtime errors) x all histories of up to {} actions from 28 (18 direct lines incl. assignments, DIM, DEFINT/DEFSTR, READ, RESTORE, FOR, GOSUB into STOP, CLEAR, CONT, one that fails to compile and one that fails to link; two edits of the listing; RUN interrupted after 3, 9, 20 instructions; RUN; CLEAR+probes; NEW+probes; NEW executed by a stored line at two places + probes), deduplicated by the full state digest",
+                "12 programs (variables, arrays, DEFtype, DEF FN, DATA/RESTORE, FOR/GOSUB/WHILE, INPUT, STOP inside loops and subroutines, runtime errors) x all histories of up to {} actions from 31 (21 direct lines incl. assignments, DIM with other bounds than the program's, DEFINT/DEFSTR, READ, RESTORE, FOR, GOSUB into STOP, CLEAR, CONT, one that fails to compile, one that fails to link and a refused direct DATA; two edits of the listing; RUN interrupted after 3, 9, 20 instructions; RUN; CLEAR+probes; NEW+probes; NEW executed by a stored line at two places + probes), deduplicated by the full state digest",
                 tier.pick(4, 6)
             ),
             rule: "a case is one transition; judged transitions are RUN (compared with RUN in a fresh interpreter holding the current listing) and CLEAR / NEW followed by 10 probe lines (compared with the probes in a fresh interpreter); distinct_nontrivial = distinct (program, fresh transcript)".into(),
